@@ -20,6 +20,7 @@ import (
 	"bytes"
 	"context"
 	"encoding/base64"
+	"encoding/binary"
 	"encoding/hex"
 	"encoding/json"
 	"fmt"
@@ -59,6 +60,8 @@ type c14Case struct {
 	AcctLen   int    `json:"acctlen"` // >0: replace Body.Account by that many bytes (unsigned path)
 	RcptRaw   string `json:"rcptraw"` // hex: replace Body.Recipient
 	BadHash   bool   `json:"badhash"`
+	BlockNo   uint64 `json:"bno"`    // >0: block number of the block this transaction is executed in
+	Commit    bool   `json:"commit"` // before this case: system.CommitParams(true), as when a block is connected
 }
 
 type c14Str struct {
@@ -66,6 +69,7 @@ type c14Str struct {
 	Upper   string `json:"upper"`
 	Addr    string `json:"addr"` // hex of DecodeAddress result
 	AddrOK  bool   `json:"addr_ok"`
+	B58Hex  string `json:"b58_hex"`
 	B58OK   bool   `json:"b58_ok"`
 	B58Len  int    `json:"b58_len"`
 	PeerOK  bool   `json:"peer_ok"`
@@ -86,6 +90,7 @@ type c14Obs struct {
 	Name     string      `json:"name"` // hex
 	Args     interface{} `json:"args"` // tagged
 	NArgs    int         `json:"nargs"`
+	JMarshal string      `json:"jmarshal"` // hex of json.Marshal(ci.Args[1:])
 	Strs     []c14Str    `json:"strs"`
 	View     c14View     `json:"view"`
 	VTypes   string      `json:"v_types"`
@@ -102,6 +107,8 @@ type c14View struct {
 	Staking    string `json:"staking"` // hex raw
 	VoteBP     string `json:"vote_bp"`
 	VotesDAO   map[string]string `json:"votes_dao"`  // ID -> hex raw vote of the sender
+	Results    map[string]string `json:"results"`    // issue key -> hex raw vote-result list (SystemVoteSort)
+	Junm       map[string][]string `json:"junm"`     // hex candidate bytes of the sender's proposal votes -> json.Unmarshal as []string (hex); absent = error
 	Names      map[string]string `json:"names"`      // hex name -> hex raw name map (present entries)
 	Names0     map[string]string `json:"names0"`     // the same from GetInitialData (start of block)
 	AdminEnc   map[string]string `json:"admin_enc"`  // hex 33-byte chunk -> hex EncodeAddress
@@ -168,6 +175,7 @@ func c14strRow(s string) c14Str {
 	if b, err := base58.Decode(s); err == nil {
 		r.B58OK = true
 		r.B58Len = len(b)
+		r.B58Hex = hex.EncodeToString(b)
 		if _, err := types.IDFromBytes(b); err == nil {
 			r.PeerOK = true
 		}
@@ -242,6 +250,17 @@ func c14raw(bs *state.BlockState, contractID string, k []byte) (string, bool) {
 	return hex.EncodeToString(d), true
 }
 
+func c14junm(cand []byte, m map[string][]string) {
+	var l []string
+	if json.Unmarshal(cand, &l) == nil {
+		h := make([]string, len(l))
+		for i, x := range l {
+			h[i] = hex.EncodeToString([]byte(x))
+		}
+		m[hex.EncodeToString(cand)] = h
+	}
+}
+
 func c14view(bs *state.BlockState, sender []byte, ci *types.CallInfo, blockNo uint64) c14View {
 	v := c14View{Sender: hex.EncodeToString(sender), BlockNo: blockNo}
 	if st, err := state.GetAccountState(sender, bs.StateDB); err == nil {
@@ -254,6 +273,22 @@ func c14view(bs *state.BlockState, sender []byte, ci *types.CallInfo, blockNo ui
 	for _, id := range []string{"BPCOUNT", "STAKINGMIN", "GASPRICE", "NAMEPRICE"} {
 		if d, ok := c14raw(bs, types.AergoSystem, dbkey.SystemVote([]byte(id), sender)); ok {
 			v.VotesDAO[id] = d
+		}
+	}
+	v.Results = map[string]string{}
+	for _, id := range []string{types.OpvoteBP.ID(), "BPCOUNT", "STAKINGMIN", "GASPRICE", "NAMEPRICE"} {
+		if d, ok := c14raw(bs, types.AergoSystem, dbkey.SystemVoteSort([]byte(id))); ok {
+			v.Results[id] = d
+		}
+	}
+	v.Junm = map[string][]string{}
+	for _, rawhex := range v.VotesDAO {
+		raw, _ := hex.DecodeString(rawhex)
+		if len(raw) >= 8 {
+			sz := int(binary.LittleEndian.Uint64(raw[:8]))
+			if sz >= 0 && 8+sz <= len(raw) {
+				c14junm(raw[8:8+sz], v.Junm)
+			}
 		}
 	}
 	v.Confs = map[string]string{}
@@ -364,12 +399,22 @@ func TestVerifC14Engine(t *testing.T) {
 			types.InitGovernance("dpos", c.Public)
 		}
 		bi := types.NewBlockHeaderInfoFromPrevBlock(g, 1000, types.DummyBlockVersionner(c.Fork))
+		if c.BlockNo > 0 {
+			bi.No = c.BlockNo
+		}
 		cidh = common.Hasher(bi.ChainId)
 		if c.Group != curGroup {
 			curGroup = c.Group
 			bs = cs.sdb.NewBlockState(g.GetHeader().GetBlocksRootHash(), state.SetPrevBlockHash(g.BlockHash()))
 			bs.SetGasPrice(big.NewInt(0))
 			bs.Receipts().SetHardFork(cs.cfg.Hardfork, bi.No)
+			// the system parameters are process globals: reload them from the genesis state
+			if scs0, err := statedb.GetSystemAccountState(bs.StateDB); err == nil {
+				system.InitSystemParams(scs0, 3)
+			}
+		}
+		if c.Commit {
+			system.CommitParams(true)
 		}
 		exec := NewTxExecutor(context.Background(), c14ccc{}, cs.cdb, bi, contract.BlockFactory)
 		a := accts[c.Sender%nAcct]
@@ -415,11 +460,19 @@ func TestVerifC14Engine(t *testing.T) {
 			}
 			o.Args = tl
 			o.NArgs = len(ci.Args)
+			if len(ci.Args) >= 1 {
+				if jm, err := json.Marshal(ci.Args[1:]); err == nil {
+					o.JMarshal = hex.EncodeToString(jm)
+				}
+			}
 			seen := map[string]bool{}
 			o.Strs = []c14Str{}
 			c14collect(ci.Args, seen, &o.Strs)
 		}
 		o.View = c14view(bs, a.addr, cip, bi.No)
+		if jm, err := hex.DecodeString(o.JMarshal); err == nil && len(jm) > 0 {
+			c14junm(jm, o.View.Junm)
+		}
 		{
 			seen := map[string]bool{}
 			for _, r := range o.Strs {
